@@ -13,7 +13,7 @@ import (
 
 func init() {
 	register(&Prop{
-		ID: "C16",
+		ID:   "C16",
 		Rule: "hostile G-pager documents (numbered pagers over 9 URL families with hrefs drawn from 30 dangerous shapes: javascript:, empty, #, mailto:, off-site, look-alike host, userinfo host, other port, other scheme, scheme-relative, malformed, relative, upper-case; gaps, duplicates, descending and calendar-like runs, decorated labels, Next/Prev anchors) x 15 page URLs (query, path, suffix, trailing slash, fragment, userinfo, port, upper-case host) x both algorithms. Every non-empty NextPage/PrevPage must parse, be http(s), have the page's host, and be canonically equal to the resolution against the real page URL of some a[href] of the document. Non-trivial = a non-empty pagination link; distinct = distinct (algorithm, side, page URL, link family shape).",
 		Assumptions: []string{
 			"canonical form: lower-case scheme and host, path without trailing slashes, raw query; fragment ignored",
